@@ -128,5 +128,5 @@ func (k *key) Certificate() []byte {
 	}
 	return nil
 }
-func (k *key) GetID() []byte                            { return []byte(k.conf.Label) }
+func (k *key) GetID() []byte                             { return []byte(k.conf.Label) }
 func (k *key) ImportCertificate(*x509.Certificate) error { return nil }
